@@ -96,4 +96,8 @@ def signature(rec):
                 return "dict-compound-offsets-count-runes-of-rewritten-term"
             if "cjk" in specs:
                 return "cjk-bigram-offsets-from-rewritten-term"
+    if op[0] == "an" and len(op) >= 3 and op[1] == "cjk" and v == "bad:invalid-offsets" and not _text_is_utf8(op[2]):
+        # the bundled cjk analyzer = unicode tokenizer, width, lower-case, CJK bigram: on invalid UTF-8 the filters in
+        # front of the bigram filter re-encode the term (an invalid byte becomes 3 bytes) — same call site, same defect
+        return "cjk-bigram-offsets-from-rewritten-term"
     return None
